@@ -190,7 +190,7 @@ CHECKS["C04"]["groups"][-1]["scenarios"].append(m("slow_start", "traffic arrivin
 CHECKS["C16"]["groups"][-1]["scenarios"].append(m("blocking", "the C17 scenario (blocking_tell / blocking_ask with and without timeout from a plain thread: live / slow / full mailbox / never-answering / killed actor) with each call routed through Box<dyn TellHandler> / Box<dyn AskHandler> obtained by From, clone_boxed or downgrade+upgrade", "same results, timers, deadlines and dead letters as the direct calls"))
 for _pid in ("C01", "C02", "C03", "C13"):
     CHECKS[_pid]["groups"][-1]["scenarios"].append(m("abandoned", "callers that give up: ask_with_timeout (symbolic timeout <= 4 ns, one symbolic clock advance) expiring after the mailbox accepted the message; ask / tell futures dropped at EVERY possible moment (cancellation is a scheduler choice); later traffic queued behind; capacity 1-3, slow handler", "an abandoned request is still handled exactly once and in its place; a withdrawn send is never handled; nothing hangs; no dead letter without a returned error"))
-for _pid in ("C01", "C02", "C06", "C08", "C09"):
+for _pid in ("C01", "C02", "C06", "C07", "C08", "C09"):
     CHECKS[_pid]["groups"][-1]["scenarios"].append(m("burst", "one sender, 12 (thorough 20) back-to-back tells + a final ask into a mailbox that holds them all; on_run periodic or one-shot; optionally a kill / stop() from a second task", "threshold-dependent behaviour (batching, burst limits) under the same monitors"))
 CHECKS["C12"]["groups"].append({"engine": "mir", "features": ["deadlock-detection"], "attribute_all": True, "scenarios": [
     m("failing_alone", "the same crash points with the deadlock-detection feature compiled in", "a panic (also the deliberate deadlock panic) leaves the wait-for graph and its lock usable by the survivors"),
